@@ -70,9 +70,9 @@ Proof.
   - destruct (nnint f) as [v |]; [| exact I]. fields. repeat split; try reflexivity; try discriminate.
   - destruct f as [| a [| v [| w t]]]; try exact I. destruct (set_format v); [| exact I]. fields.
     repeat split; try reflexivity; try discriminate.
-  - destruct (nnint f) as [v |]; [| exact I]. destruct (1000 <? v); [exact I |]. fields.
+  - destruct (nnint f) as [v |]; [| exact I]. destruct ((v <? 1) || (1000 <? v)); [exact I |]. fields.
     repeat split; try reflexivity; try discriminate.
-  - destruct (nnint f) as [v |]; [| exact I]. destruct (1000 <? v); [exact I |]. fields.
+  - destruct (nnint f) as [v |]; [| exact I]. destruct ((v <? 1) || (1000 <? v)); [exact I |]. fields.
     repeat split; try reflexivity; try discriminate.
 Qed.
 
